@@ -82,8 +82,11 @@ func (t *AppendOnlyTree) AddLeaf(tx dbtypes.Txer, blockNum, blockPosition uint64
 	}
 	t.lastIndex++
 	tx.AddRollbackCallback(func() {
-		log.Debugf("decreasing index due to rollback")
-		t.lastIndex--
+		// the frontier cache (lastLeftCache) may already hold nodes of leaves added
+		// later in the rolled back transaction, so restoring only the index is not
+		// enough: invalidate the cache so the next AddLeaf rebuilds it from the DB
+		log.Debugf("invalidating cache due to rollback")
+		t.lastIndex = -2
 	})
 	return nil
 }
